@@ -532,8 +532,8 @@ nested messages and enums, fields (no label / `repeated` / `optional`; scalar, r
 package-qualified and fully-qualified type names; any number, negative ones included), enum values —
 real oneofs, map fields — with or without source locations (lines; the printer orders the children of a
 block by them and leaves a gap where the source left a line free), bracket options and custom JSON names of fields,
-statement options of messages, enums and services (a `/` inside a string literal is fine) — without comments,
-extensions, options of files / oneofs / methods / enum values (those are covered by the stream, not yet by the theorem). -/
+statement options of messages, enums, services and methods (a `/` inside a string literal is fine) — without
+comments, extensions, options of files / oneofs / enum values (those are covered by the stream, not yet by the theorem). -/
 
 open Layout Grammar Reparse in
 /-- **parse (print d) = d′ with d′ ≍ d, and print d′ = print d.** For every `d` whose printed
@@ -634,7 +634,9 @@ def stmtEx : FileD :=
      .block "message" 1 ⟨14, 16, [], "", ""⟩ 1 "OnlyOption" [exMsgOpt] [],
      .block "service" 0 ⟨30, 36, [], "", ""⟩ 0 "Topic"
        [⟨"(j5.messaging.v1.service)", [.msg "" [.scalar "topic_name" "\"a/b\""]], false, false, false, 0, 0, "j5.messaging.v1.service"⟩]
-       [ .rpc ⟨32, 32, [], "", ""⟩ 0 "Post" "Spec" "google.protobuf.Empty" [] ],
+       [ .rpc ⟨32, 32, [], "", ""⟩ 0 "Post" "Spec" "google.protobuf.Empty" [],
+         .rpc ⟨34, 36, [], "", ""⟩ 1 "Get" "Spec" "stream Spec"
+           [⟨"(google.api.http)", [.msg "" [.scalar "get" "\"/v1/spec/{id}\""]], false, false, false, 0, 0, "google.api.http"⟩] ],
      .block "message" 1 ⟨18, 24, [], "", ""⟩ 2 "Choice" [⟨"(j5.ext.v1.message).oneof", [.msg "" []], false, false, false, 0, 0, "j5.ext.v1.message"⟩]
        [ .block "oneof" 0 ⟨20, 23, [], "", ""⟩ 0 "type" []
            [ .field ⟨.field, ⟨21, 21, [], "", ""⟩, 0, "", "Spec", "key", 1, some "key",
